@@ -103,9 +103,45 @@ def gen_refused_activation(rng):
     return {"prog": "calltree", "ops": ops}
 
 
+def gen_change_inside_generator(rng, tier, inv="C17.stream"):
+    """A probe is activated -- or deactivated -- by code running inside an instrumented generator
+    (a subscriber, or the body itself, does it), and the generator then yields several more
+    times to the same driver: from the change on the probe is active (resp. over) for the
+    driver's own calls and for the calls the generator goes on to make, at every later step."""
+    from .common import gen_tape
+
+    one = lambda fn, v: {"levels": [{"fn": fn, "caps": [], "sibs": []}], "focus": {"var": v, "as": v}}
+    gfn = rng.choice(["gen", "gen2", "gen5"])
+    own = {"gen": "x", "gen2": "y", "gen5": "x"}[gfn]
+    tape = lambda: gen_tape(rng, 6, hi=12, odd=0.6)
+    ops = [{"op": "mk", "id": "p0", "inv": inv, "sels": [one(gfn, own)]},
+           {"op": "mk", "id": "p1", "inv": inv, "sels": [one("g", "a")]},
+           {"op": "enter", "id": "p0"},
+           {"op": "gen_new", "gen": "g0", "fn": gfn, "nargs": 1}]
+    step = lambda: {"op": "gen_next", "gen": "g0", "tape": tape(), "faults": {}}
+    callg = lambda: {"op": "call", "fn": "g", "nargs": 1, "tape": [], "faults": {}}
+    mode = rng.choice(["enter", "enter", "exit"])
+    if mode == "exit":
+        ops += [{"op": "enter", "id": "p1"}, callg()]
+    if rng.random() < 0.5:
+        ops.append(step())
+    c = step()
+    c["during"] = {"at": rng.randint(0, 3), "ops": [{"op": "enter" if mode == "enter" else "exit", "id": "p1"}]}
+    ops.append(c)
+    for _ in range(rng.randint(3, 7)):
+        ops.append(step() if rng.random() < 0.6 else callg())
+    ops += [callg(), {"op": "gen_close", "gen": "g0", "tape": [], "faults": {}}, callg()]
+    if mode == "enter":
+        ops += [{"op": "exit", "id": "p1"}, callg()]
+    ops += [{"op": "exit", "id": "p0"}, callg()]
+    return {"prog": "genctx", "ops": ops, "relax_inflight": True}
+
+
 def gen(rng, tier, quarantine=()):
     if "no-generators" not in quarantine and rng.random() < 0.1:
         return gen_generator_history(rng, tier)
+    if "no-generators" not in quarantine and rng.random() < 0.06:
+        return gen_change_inside_generator(rng, tier)
     if "no-refused-activation" not in quarantine and rng.random() < 0.08:
         return gen_refused_activation(rng)
     if "no-interrupted-completion" not in quarantine and rng.random() < 0.08:
